@@ -41,12 +41,9 @@ CONFIGS = {
 
 DEFAULT = list(CONFIGS)
 
-# (property, configuration) pairs left out, each with the reason.  Every other pair is quiet on the
+# (property, configuration) pairs left out, each with the reason (none at present).  Every pair is quiet on the
 # unchanged tree (measured with several seeds) and is run by every check.
 SKIP = {
-    ('C11', 'intdigits'): 'the model is of the default 4300-digit int/str limit; the unchanged code accepts longer '
-                          'digit strings once the limit is lifted',
-    ('C15', 'intdigits'): 'same: port texts longer than 4300 digits',
 }
 
 
@@ -122,6 +119,38 @@ def post_import(name):
         pyparsing.ParserElement.inlineLiteralsUsing(pyparsing.Suppress)
 
 
+_LONG_DIGITS = None
+
+
+def outside_configuration(name, case):
+    """True when the models say nothing about `case` under configuration `name`.  Only one such class
+    exists: the models are of the default 4300-digit int/str conversion limit, so with the limit lifted
+    (`intdigits`) a case carrying a run of more than 4300 digits is left out of the CORRESPONDENCE (and
+    counted in the evidence); the property oracle of the search still judges it."""
+    global _LONG_DIGITS
+    if name != 'intdigits':
+        return False
+    import re
+    if _LONG_DIGITS is None:
+        _LONG_DIGITS = re.compile(r'[0-9_]{4301,}')
+
+    def walk(x, depth=0):
+        if isinstance(x, str):
+            return bool(_LONG_DIGITS.search(x))
+        if isinstance(x, (bytes, bytearray)):
+            return bool(re.search(rb'[0-9_]{4301,}', bytes(x)))
+        if isinstance(x, int) and not isinstance(x, bool):
+            return abs(x) >= 10 ** 4300
+        if depth > 6:
+            return False
+        if isinstance(x, dict):
+            return any(walk(v, depth + 1) for v in x.values())
+        if isinstance(x, (list, tuple)):
+            return any(walk(v, depth + 1) for v in x)
+        return False
+    return walk(case)
+
+
 def child_cmd(prop_id, tier, name, out=None, replay=None):
     flags = CONFIGS[name][0]
     cmd = [sys.executable] + flags + [os.path.join(HERE, 'main.py'), prop_id, '--tier', tier, '--ambient', name]
@@ -164,6 +193,10 @@ def child_main(common, prop, tier, seed, name, out):
         else:
             res['crash'] = 'correspondence: ' + traceback.format_exc()[-3000:]
     res['corr_evals'] = ctx.evaluations
+    # cases the model does not speak about under this configuration (it is a model of the default one)
+    kept = [d for d in disagreements if not outside_configuration(name, d.case)]
+    res['outside_configuration'] = len(disagreements) - len(kept)
+    disagreements = kept
     res['disagreements'] = [d.to_json() for d in disagreements[:5]]
     res['n_disagreements'] = len(disagreements)
     failures = []
